@@ -432,6 +432,15 @@ class Model:
                 tree = tree.kids[0]
             fact = None
             pl = t["discr"].get("move") or t["discr"].get("copy")
+            # a user variable holding the result (`let is_match = ..; if is_match`): chase copies of bare locals only
+            for _ in range(4):
+                dd = f.single_def(pl["l"]) if pl is not None and not pl["p"] else None
+                if dd and dd[2] == "assign" and dd[3]["k"] == "use":
+                    src = dd[3]["op"].get("copy") or dd[3]["op"].get("move")
+                    if src is not None and not src["p"]:
+                        pl = src
+                        continue
+                break
             d = f.single_def(pl["l"]) if pl and not pl["p"] else None
             if d and d[2] == "call":
                 ct = d[3]
